@@ -27,7 +27,12 @@ class G:
         return a
 
     def catch_steps(self):
-        return [{'id': self.nid('c'), 'acts': [self.plain_act() for _ in range(self.r.randint(0, 2))]} for _ in range(self.r.randint(0, 2))]
+        steps = [{'id': self.nid('c'), 'acts': [self.plain_act() for _ in range(self.r.randint(0, 2))]} for _ in range(self.r.randint(0, 2))]
+        for st in steps:
+            for a in st['acts']:
+                if a['uses'] == IRQ:
+                    a['key'] = 'kc'
+        return steps
 
     def catches(self):
         n = self.r.randint(0, 3)
@@ -48,6 +53,8 @@ class G:
             err_act = {'id': 'AE', 'uses': IRQ, 'key': 'ke', 'catches': self.catches()}
         elif source == 'script':
             err_act = {'id': 'AE', 'uses': 'acts.transform.code', 'params': 'throw new Error("boom");', 'catches': self.catches()}
+        elif source == 'unknown':
+            err_act = {'id': 'AE', 'uses': 'app.not_installed', 'key': 'ku', 'catches': self.catches()}
         else:
             err_act = {'id': 'AE', 'uses': 'acts.core.subflow', 'params': {'to': 1}, 'catches': self.catches()}
         acts = [self.plain_act() for _ in range(self.r.randint(0, 1))] + [err_act] + [self.plain_act() for _ in range(self.r.randint(0, 2))]
@@ -152,15 +159,22 @@ class ErrorFamily:
     name = 'error'
 
     def gen(self, rng, idx, opts):
-        source = rng.choice(['action', 'action', 'action', 'script', 'params'])
+        source = rng.choice(['action', 'action', 'action', 'script', 'params', 'unknown'])
         g = G(rng)
         wf = g.wf(source)
         code = rng.choice(CODES) if source == 'action' else None
         rules = [{'match': {'key': 'ke'}, 'action': 'error', 'options': {'ecode': code, 'message': 'boom'}}, {'match': {'uses': IRQ}, 'action': 'next', 'times': 1000}]
         rt = rng.choice([{'flavor': 'current'}, {'flavor': 'current', 'chaos': {'max_yields': 3, 'seed': rng.randrange(1, 1 << 40)}}, {'flavor': 'multi', 'workers': 2, 'chaos': {'max_yields': 3, 'seed': rng.randrange(1, 1 << 40)}}])
         order = rng.choice(['fifo', 'lifo', 'seeded'])
+        if opts.get('second_error') and source == 'action':
+            # a second error with another code raised on an act inside the catch steps (C02: only one revival)
+            other = rng.choice([x for x in CODES if x != code])
+            rules.insert(1, {'match': {'key': 'kc'}, 'action': 'error', 'options': {'ecode': other, 'message': 'again'}, 'times': 1})
         sc = {'id': '', 'family': 'error', 'sched': rt['flavor'] + '-' + order, 'seed': rng.randrange(1 << 30), 'runtime': rt, 'engine': {'store': opts.get('store', 'mem'), 'keep_processes': True}, 'models': [json.dumps(wf)],
               'responder': {'mode': 'quiescent', 'order': order, 'rules': rules}, 'ops': [{'op': 'start', 'mid': 'm1', 'vars': {'pid': 'p1'}}, {'op': 'run', 'snap': opts.get('snap', 'live')}, {'op': 'snapshot', 'level': opts.get('snap', 'live')}]}
+        if rng.random() < opts.get('evict', 0.3):
+            sc['faults'] = {'evict_at': sorted(set(rng.randint(1, 6) for _ in range(rng.randint(1, 2))))}
+            sc['sched'] += '+evict'
         return {'scenarios': [sc], 'meta': {'wf': wf, 'code': code, 'source': source}, 'digest': digest([wf, code]), 'nontrivial': True}
 
     def judge(self, c, opts, obs):
@@ -214,7 +228,10 @@ class ErrorFamily:
             if not ok:
                 out.append(V('C06', 'terminal-event', f"{tag}:{'+'.join(x[0] for x in cbs) or 'none'}", f"uncaught error {code!r}: expected exactly one error event carrying it, got {cbs}", scenario=sid))
             # child before parent, original code and message on every errored task
-            seqs = {e['nid']: e['seq'] for e in h.states if e['new'] == 'error'}
+            seqs = {}
+            for e in h.states:
+                if e['new'] == 'error' and e['via'] == 'set':
+                    seqs.setdefault(e['nid'], e['seq'])
             chain = [n for n in ('AE', 'SE', 'BE', 'SO', 'm1') if n in exp and exp[n] == 'error']
             for x, y in zip(chain, chain[1:]):
                 if x in seqs and y in seqs and not seqs[x] < seqs[y]:
